@@ -194,9 +194,61 @@ def build(case):
 HDR = re.compile(r"\[myst\.header\]")
 
 
+def eval_repeat(ctx, case):
+    """The SAME file (identical headings, identical lines) included several times: sections are matched by document order."""
+    from docutils import nodes
+
+    lines, events = [], []
+    for j, L in enumerate(case["pre"]):
+        lines += ["#" * L + f" pre{j}", ""]
+        events.append(("h", f"e{len(events)}", L))
+    body = []
+    for j, L in enumerate(case["file"]):
+        body += ["#" * L + f" shared{j}", "", f"shared para {j}", ""]
+    for t in range(case["times"]):
+        lines += ["```{include} rep.md"] + ([f":heading-offset: {case['offset']}"] if case["offset"] else []) + ["```", ""]
+        for L in case["file"]:
+            events.append(("h", f"e{len(events)}", L + case["offset"]))
+        if case.get("between"):
+            lines += ["between paragraph", ""]
+    with open(os.path.join(TMP, "rep.md"), "w", encoding="utf8") as f:
+        f.write("\n".join(body))
+    text = "\n".join(lines) + "\n"
+    try:
+        doc, wtext = drive.parse_pre(text, source_path=os.path.join(TMP, "doc.md"), report_level=2)
+    except Exception as e:  # noqa: BLE001
+        sig = core.exc_signature(e)
+        ctx.violation(f"raises:{sig['type']}:{sig['myst']}", f"parse raised {sig['type']}: {sig['msg']}", case, sig)
+        return
+    exp_parent, exp_warns = model(events)
+    detail = {"text": text, "included": "\n".join(body), "stream": wtext}
+    secs = list(doc.findall(nodes.section))
+    if len(secs) != len(events):
+        ctx.violation("repeat:section-count", f"{len(secs)} sections for {len(events)} headings (the same file included {case['times']} times)", case, detail)
+    else:
+        index = {id(s): f"e{i}" for i, s in enumerate(secs)}
+        for i, s in enumerate(secs):
+            p = "document" if isinstance(s.parent, nodes.document) else index.get(id(s.parent), f"<{s.parent.tagname}>")
+            if p != exp_parent[f"e{i}"]:
+                ctx.violation("repeat:wrong-parent", f"heading number {i} ({s[0].astext()!r}) is under {p}, model says {exp_parent[f'e{i}']}", case, detail)
+                break
+    got = sorted(w["msg"].split(" [myst.header]")[0] for w in drive.split_warnings(wtext) if HDR.search(w["msg"]))
+    exp = sorted(msg for _, msg in exp_warns)
+    if got != exp:
+        ctx.violation("repeat:warning-count-or-text", f"[myst.header] warnings {got}, model {exp} (every inclusion of the file skips levels again)", case, detail)
+    nmsg = sum(1 for sm in doc.findall(nodes.system_message) if "[myst.header]" in sm.astext())
+    if nmsg != len(exp_warns):
+        ctx.violation("repeat:warning-node-count", f"{nmsg} [myst.header] system_message nodes, model {len(exp_warns)}", case, detail)
+    ctx.count("repeat_cases")
+    ctx.count("repeat_warnings_expected", len(exp_warns))
+    ctx.count("sections_checked", len(events))
+
+
 def eval_case(ctx, case):
     from docutils import nodes
 
+    if case.get("kind") == "repeat":
+        return eval_repeat(ctx, case)
     text, events, rubrics, order, hline, files = build(case)
     d = TMP
     for fn, body in files.items():
@@ -347,6 +399,14 @@ def run_shard(ctx):
     ctx.enumerated(max(0, n - 1))
     ctx.subrun("exhaustive_level_sequences", exhaustive=complete, max_length=maxlen, cases=n)
     ctx.sample({"kind": "levels", "items": [["h", 2, "atx"], ["h", 4, "atx"], ["h", 1, "atx"]]})
+    # the same file included two to four times
+    for i in range(150 if quick else 6000):
+        case = {"kind": "repeat", "pre": [R.randint(1, 4) for _ in range(R.randint(0, 2))], "file": [R.randint(1, 6) for _ in range(R.randint(1, 3))], "times": R.randint(2, 4), "offset": R.choice([0, 0, 1, 2, 3]),
+                "between": R.random() < 0.3}
+        eval_case(ctx, case)
+        ctx.case(("repeat", repr(case)), True)
+        if i == 0:
+            ctx.sample(case)
     # random: interleaved / nested / includes
     n_r = 1500 if quick else 60000
     for i in range(n_r):
@@ -383,7 +443,7 @@ def run_shard(ctx):
 
 def finalize(m, tier):
     c = m["counters"]
-    for k, lo in (("cases_compared", 5000), ("sections_checked", 20000), ("warnings_expected", 2000), ("rubrics_checked", 300), ("with_include", 50), ("with_nested_heading", 200)):
+    for k, lo in (("cases_compared", 5000), ("sections_checked", 20000), ("warnings_expected", 2000), ("rubrics_checked", 300), ("with_include", 50), ("with_nested_heading", 200), ("repeat_cases", 500), ("repeat_warnings_expected", 500)):
         if c.get(k, 0) < lo:
             m["inconclusive"].append(f"monitor observed only {c.get(k, 0)} '{k}' events (< {lo})")
     mon.require_reach(m, ANCHORS)
